@@ -79,7 +79,9 @@ func (vc *VC) inlinable0(fn *ssa.Function) bool {
 			}
 		}
 		for _, ins := range b.Instrs {
-			n++
+			if _, isDbg := ins.(*ssa.DebugRef); !isDbg {
+				n++
+			}
 			switch x := ins.(type) {
 			case *ssa.Defer, *ssa.Go, *ssa.Select, *ssa.MakeClosure, *ssa.RunDefers:
 				return false
